@@ -972,6 +972,7 @@ theorem src_term_solution_size (limit sz it : Nat) :
     (TermM.size limit).fires sz it = term_solution_size.nat sz limit := by
   simp [TermM.fires, term_solution_size, Rel.nat]
 
+/-- (`it + 1` in `Nat`: no wrap at `u64::MAX`, unreachable from `run_a_star`) -/
 theorem src_term_iterations (limit sz it : Nat) :
     (TermM.iters limit).fires sz it = term_iterations.nat (it + 1) limit := by
   simp [TermM.fires, term_iterations, Rel.nat]
@@ -997,6 +998,12 @@ change to the function changes the generated definition and the proof stops chec
 translator no longer recognises is not emitted: the theorem no longer elaborates). -/
 
 mutual
+/-- What is regenerated and what is substituted: the elapsed time of the runtime arm is NOT translated — the
+translator replaces `Instant::now().duration_since(*start_time)` (and the hook's `verif_clock::elapsed`) by the
+model's virtual clock `baseNs + perNs * iteration` (`externs` in tools/gen_fns.py), drops `start_time` and adds the
+model-only fields; of that arm only `iteration % frequency == 0` (with the `frequency = 0` guard) and
+`dur > *limit` come from the source.  Counters are `Nat`: `iteration + 1` does not wrap at `u64::MAX` as the
+release build does (unreachable: `run_a_star` counts its own iterations from 0). -/
 theorem gen_terminate_search_eq (m : TermM) (sz it : Nat) :
     Gen.TerminationModel_terminate_search m sz it = m.fires sz it := by
   cases m with
